@@ -91,12 +91,15 @@ class FnValue:
 
 
 class T:
+    INTS = ("i32", "u32", "usize")
+    RANGES = {"i32": (-2 ** 31, 2 ** 31 - 1), "u32": (0, 2 ** 32 - 1), "usize": (0, 2 ** 64 - 1)}
+
     def __init__(self, toks, env):
         self.t, self.i, self.env = toks, 0, dict(env)
         self.fresh = [0]
 
     def sub(self, toks, env):
-        s = T(toks, env)
+        s = self.__class__(toks, env)
         s.fresh = self.fresh
         return s
 
@@ -214,9 +217,9 @@ class T:
     def unify(self, a, b):
         if a.ty == b.ty:
             return a, b
-        if a.ty == "int?" and b.ty in ("i32", "u32", "usize"):
+        if a.ty == "int?" and b.ty in self.INTS:
             return self.lit_as(a, b.ty), b
-        if b.ty == "int?" and a.ty in ("i32", "u32", "usize"):
+        if b.ty == "int?" and a.ty in self.INTS:
             return a, self.lit_as(b, a.ty)
         if a.ty == "float?" and b.ty == "f64":
             return self.flit(a), b
@@ -230,10 +233,11 @@ class T:
 
     def lit_as(self, e, ty):
         v = int(e.code)
-        if ty == "i32" and not -2 ** 31 <= v < 2 ** 31:
-            raise Unsupported("literal out of i32 range")
-        if ty == "u32" and not 0 <= v < 2 ** 32:
-            raise Unsupported("literal out of u32 range")
+        if ty not in self.RANGES:
+            raise Unsupported("literal as %s" % ty)
+        lo, hi = self.RANGES[ty]
+        if not lo <= v <= hi:
+            raise Unsupported("literal out of %s range" % ty)
         return E("(%d)" % v if v < 0 else "%d" % v, ty, True)
 
     def flit(self, e):
@@ -294,7 +298,7 @@ class T:
             if a.ty == "bool" and op in ("==", "!="):
                 f = "(Bool.eqb %s %s)" if op == "==" else "(negb (Bool.eqb %s %s))"
                 return self.seq([a, b], lambda c: E(f % (c[0], c[1]), "bool", True))
-            if a.ty not in ("i32", "u32", "usize"):
+            if a.ty not in self.INTS:
                 raise Unsupported("comparison on %s" % a.ty)
             tbl = {"==": "(Z.eqb %s %s)", "!=": "(negb (Z.eqb %s %s))", "<": "(Z.ltb %s %s)", "<=": "(Z.leb %s %s)",
                    ">": "(Z.gtb %s %s)", ">=": "(Z.geb %s %s)"}
@@ -377,6 +381,20 @@ class T:
         if self.at("-"):
             self.eat()
             a = self.p_unary()
+            return self.neg(a)
+        if self.at("*"):
+            self.eat()
+            return self.p_unary()      # deref of a closure parameter (&i32 -> i32)
+        if self.at("!"):
+            self.eat()
+            a = self.p_unary()
+            if a.ty != "bool":
+                raise Unsupported("bitwise not")
+            return self.seq([a], lambda c: E("(negb %s)" % c[0], "bool", True))
+        return self.postfix(self.primary())
+
+    def neg(self, a):
+        if True:
             if a.ty == "float?":
                 return E("-" + a.code, "float?", True)
             if a.ty == "int?":
